@@ -1,8 +1,10 @@
 /-
   PK.Spec.Ranking — the rules of poker for five-card hands, written from first principles and
-  independently of lookups.py: category from the multiplicity profile, straights and flushes with
-  the ace playing high or (in the wheel) low, kickers by (multiplicity, rank) descending.
-  A hand is looked at only through its *signature*: the ranks it holds and whether it is suited.
+  independently of lookups.py: category from the multiplicities of the ranks, straights and flushes
+  with the ace playing high or (in the wheel) low, ties broken by the ranks ordered by
+  (multiplicity, rank) descending.  A hand is looked at only through the ranks it holds and whether
+  it is suited.  Definitions are plain structural recursions (the kernel evaluates them on every
+  signature in `PK.Properties.C04Table`).
 -/
 import PK.Model.Lookup
 namespace PK.Spec
@@ -12,76 +14,88 @@ open PK
     (rank codes: 0 = ace, 1 = deuce, …, 12 = king) -/
 def valueHigh (r : Rank) : Nat := if r = 0 then 14 else r + 1
 
-/-- the distinct values of a hand with their multiplicities, biggest group first, then highest value -/
-def groups (vals : List Nat) : List (Nat × Nat) :=
-  let gs := (List.range 15).reverse.filterMap fun v =>
-    let c := vals.count v
-    if c > 0 then some (c, v) else none
-  [4, 3, 2, 1].flatMap fun c => gs.filter (·.1 == c)
+/-- how many times `v` occurs -/
+def countEq (v : Nat) : List Nat → Nat
+  | [] => 0
+  | x :: xs => if x = v then countEq v xs + 1 else countEq v xs
 
-/-- the top card of a straight, if the five (distinct) values in descending order form one; the wheel
+/-- `(multiplicity, value)` for every value `≤ top` that occurs, highest value first -/
+def groupsFrom (vals : List Nat) : Nat → List (Nat × Nat)
+  | 0 => []
+  | v + 1 =>
+    match countEq (v + 1) vals with
+    | 0 => groupsFrom vals v
+    | c + 1 => (c + 1, v + 1) :: groupsFrom vals v
+
+/-- the values occurring exactly `c` times, highest first -/
+def withCount (c : Nat) : List (Nat × Nat) → List Nat
+  | [] => []
+  | g :: gs => if g.1 = c then g.2 :: withCount c gs else withCount c gs
+
+/-- the top card of a straight, if five different values (highest first) form one; the wheel
     A-5-4-3-2 is a straight to the five -/
-def straightTop (desc : List Nat) : Option Nat :=
-  match desc with
+def straightTop : List Nat → Option Nat
   | [a, b, c, d, e] =>
     if a = b + 1 ∧ b = c + 1 ∧ c = d + 1 ∧ d = e + 1 then some a
-    else if desc = [14, 5, 4, 3, 2] then some 5 else none
+    else if a = 14 ∧ b = 5 ∧ c = 4 ∧ d = 3 ∧ e = 2 then some 5
+    else none
   | _ => none
 
-/-- categories of the standard ranking, weakest first -/
-inductive Category where
-  | highCard | onePair | twoPair | threeOfAKind | straight | flush | fullHouse | fourOfAKind | straightFlush
-deriving DecidableEq, Repr
-
-def Category.strength : Category → Nat
-  | .highCard => 0 | .onePair => 1 | .twoPair => 2 | .threeOfAKind => 3 | .straight => 4
-  | .flush => 5 | .fullHouse => 6 | .fourOfAKind => 7 | .straightFlush => 8
-
-/-- category and tie-breakers of a five-card hand under the standard rules -/
-def standardRank (ranks : List Rank) (suited : Bool) : Category × List Nat :=
-  let gs := groups (ranks.map valueHigh)
-  let shape := gs.map (·.1)
-  let kick := gs.map (·.2)
-  let top := if shape = [1, 1, 1, 1, 1] then straightTop kick else none
-  match top, suited with
-  | some t, true => (.straightFlush, [t])
-  | _, _ =>
-    if shape = [4, 1] then (.fourOfAKind, kick)
-    else if shape = [3, 2] then (.fullHouse, kick)
-    else if suited then (.flush, kick)
-    else match top with
-      | some t => (.straight, [t])
-      | none =>
-        if shape = [3, 1, 1] then (.threeOfAKind, kick)
-        else if shape = [2, 2, 1] then (.twoPair, kick)
-        else if shape = [2, 1, 1, 1] then (.onePair, kick)
-        else (.highCard, kick)
-
-/-- the strength of a hand as a list compared lexicographically: category, then tie-breakers -/
+/-- categories of the standard ranking, weakest first: high card 0, one pair 1, two pair 2, three of
+    a kind 3, straight 4, flush 5, full house 6, four of a kind 7, straight flush 8 (the numbering of
+    `Label` in the model) -/
 def standardKey (ranks : List Rank) (suited : Bool) : List Nat :=
-  let r := standardRank ranks suited
-  r.1.strength :: r.2
+  let gs := groupsFrom (ranks.map valueHigh) 14
+  let quads := withCount 4 gs
+  let trips := withCount 3 gs
+  let pairs := withCount 2 gs
+  let singles := withCount 1 gs
+  let tiebreak := quads ++ trips ++ pairs ++ singles     -- by (multiplicity, value) descending
+  match straightTop singles, suited with
+  | some t, true => [8, t]                               -- straight flush
+  | top, _ =>
+    if quads.length = 1 then 7 :: tiebreak               -- four of a kind
+    else if trips.length = 1 ∧ pairs.length = 1 then 6 :: tiebreak   -- full house
+    else if suited then 5 :: tiebreak                    -- flush
+    else match top with
+      | some t => [4, t]                                 -- straight
+      | none =>
+        if trips.length = 1 then 3 :: tiebreak           -- three of a kind
+        else if pairs.length = 2 then 2 :: tiebreak      -- two pair
+        else if pairs.length = 1 then 1 :: tiebreak      -- one pair
+        else 0 :: tiebreak                               -- high card
 
-/-- lexicographic order on lists of naturals -/
+/-- lexicographic order on lists of naturals: how two strengths compare -/
 def lexLt : List Nat → List Nat → Bool
   | [], [] => false
   | [], _ :: _ => true
   | _ :: _, [] => false
-  | a :: as, b :: bs => a < b || (a == b && lexLt as bs)
+  | a :: as, b :: bs => if a < b then true else if a = b then lexLt as bs else false
 
-/-- all non-decreasing lists of length `k` over `lo … n-1` -/
-def multisets (n : Nat) : Nat → Nat → List (List Nat)
-  | 0, _ => [[]]
-  | k + 1, lo => (List.range n).flatMap fun x => if lo ≤ x then (multisets n k x).map (x :: ·) else []
+/-! ### every signature a hand can have -/
 
-/-- a signature can be that of five distinct cards of a 52-card deck: no rank five times, and suited
-    hands have five different ranks -/
-def possible (ranks : List Rank) (suited : Bool) : Bool :=
-  (List.range 13).all (fun r => ranks.count r ≤ 4) && (!suited || ranks.Nodup)
+/-- one more column of the enumeration: lists starting with `lo`, or lists over the values above -/
+def msStep (above : Nat → List (List Nat)) (lo : Nat) : Nat → List (List Nat)
+  | 0 => [[]]
+  | k + 1 => (msStep above lo k).map (lo :: ·) ++ above (k + 1)
 
-/-- every signature five distinct cards of the standard deck can have, ranks in non-decreasing order -/
-def signatures : List (List Rank × Bool) :=
-  (multisets 13 5 0).flatMap fun rs =>
-    (if possible rs false then [(rs, false)] else []) ++ (if possible rs true then [(rs, true)] else [])
+/-- all non-decreasing lists of length `k` over `lo … lo + w - 1` -/
+def multisets : Nat → Nat → Nat → List (List Nat)
+  | 0, _ => fun k => match k with | 0 => [[]] | _ + 1 => []
+  | w + 1, lo => msStep (multisets w (lo + 1)) lo
+
+def allSame : List Nat → Bool
+  | a :: b :: rest => if a = b then allSame (b :: rest) else false
+  | _ => true
+
+def strictlyIncreasing : List Nat → Bool
+  | a :: b :: rest => if a < b then strictlyIncreasing (b :: rest) else false
+  | _ => true
+
+/-- the signatures of the five-card hands of a 52-card deck, ranks in non-decreasing order: not five
+    cards of one rank; suited hands have five different ranks -/
+def signatures5 : List (List Rank × Bool) :=
+  (multisets 13 0 5).flatMap fun rs =>
+    (if allSame rs then [] else [(rs, false)]) ++ (if strictlyIncreasing rs then [(rs, true)] else [])
 
 end PK.Spec
